@@ -12,8 +12,8 @@
    event is exactly at the horizon is covered by neither clause, the code deletes it
    (C14_boundary_segment_is_deleted). *)
 From Coq Require Import Permutation.
-From SigM Require Import Base Retention RetentionMem RetentionConc.
-From SigP Require Import BaseProofs RetentionProofs RetentionMemProofs RetentionConcProofs.
+From SigM Require Import Base Retention RetentionMem RetentionConc RetentionTime.
+From SigP Require Import BaseProofs RetentionProofs RetentionMemProofs RetentionConcProofs RetentionTimeProofs.
 Open Scope N_scope.
 
 (* the selection test, spelled out *)
@@ -451,3 +451,84 @@ Example C14_concurrent_hypotheses_satisfiable :
   finished (run_sched (sched_behind 1) (init_state true 100000 0 (Some [a; b]) [[c]])) = true /\
   content (mfs (run_sched (sched_behind 1) (init_state true 100000 0 (Some [a; b]) [[c]]))) = [b; c].
 Proof. repeat split; vm_compute; reflexivity. Qed.
+
+(* ------------------------------------------------------------------------------------------------
+   The clock side (SigM.RetentionTime): "older than the retention horizon" is an age, i.e. an ABSOLUTE
+   duration between two instants.  time.Now() hands the pass an instant together with the server's
+   local zone; GetRetentionTimeMs as coded uses the instant only (Add, UnixMilli), so the horizon, the
+   selection and the whole outcome of the pass are the same for every zone and every date.  A horizon
+   computed with calendar arithmetic on the wall clock (AddDate) is a different function: it agrees in
+   zones without transitions and is off by the size of the clock change whenever one lies inside the
+   retention window (after the change to summer time segments up to that much NEWER than the horizon
+   are deleted, after the change back expired segments are kept). *)
+Open Scope Z_scope.
+
+(* for every retention, instant and pair of locations: the same horizon, namely  now - hours * 3 600 000 ms *)
+Theorem C14_horizon_is_absolute_and_zone_independent : forall hours now z1 z2,
+  retention_time_ms hours (mktime now z1) = retention_time_ms hours (mktime now z2)
+  /\ retention_time_ms hours (mktime now z1) = now - hours * 3600000.
+Proof. exact retention_time_zone_independent. Qed.
+Print Assumptions C14_horizon_is_absolute_and_zone_independent.
+
+(* the number the pass model calls [horizon] is the coded computation on a time.Time of any location *)
+Theorem C14_model_horizon_is_the_coded_one : forall hours now z, 0 <= now ->
+  horizon_of hours (mktime now z) = horizon (Z.to_N now) hours.
+Proof. exact horizon_of_is_horizon. Qed.
+Print Assumptions C14_model_horizon_is_the_coded_one.
+
+(* selection = age as an absolute duration: the line belongs to the org and its newest event lies at least
+   [hours] hours before the instant of the pass; no zone on the right-hand side *)
+Theorem C14_selected_iff_older_than_the_retention : forall hours now z org s, 0 <= now -> Z.of_N hours * 3600000 <= now ->
+  expired (horizon_of hours (mktime now z)) org s = true
+  <-> s_org s = org /\ Z.of_N (latest_ms s) + Z.of_N hours * 3600000 <= now.
+Proof. exact expired_at_iff. Qed.
+Print Assumptions C14_selected_iff_older_than_the_retention.
+
+(* files, in-memory metadata, directories and index names after the pass do not depend on the server's zone
+   (every store, every map iteration order) *)
+Theorem C14_pass_outcome_independent_of_server_zone : forall ord ordp ordn hours now z1 z2 org st,
+  run ord ordp ordn (horizon_of hours (mktime now z1)) org st
+  = run ord ordp ordn (horizon_of hours (mktime now z2)) org st.
+Proof. exact pass_zone_independent. Qed.
+Print Assumptions C14_pass_outcome_independent_of_server_zone.
+
+(* Full statement for the calendar variant (whole days through AddDate, then the remaining hours):
+     forall z hours now, retention_time_ms_calendar hours (mktime now z) = retention_time_ms hours (mktime now z)
+   It fails (three witnesses below).  Guard = the zone has no transition (UTC and every fixed offset). *)
+Theorem C14_calendar_horizon_guarded : forall o hours now,
+  retention_time_ms_calendar hours (mktime now (fixed_zone o)) = retention_time_ms hours (mktime now (fixed_zone o)).
+Proof. exact calendar_fixed_offset. Qed.
+Print Assumptions C14_calendar_horizon_guarded.
+
+(* change to summer time inside the window (America/New_York, pass on 2024-03-20 12:00 UTC, 15 days): horizon one
+   hour too late; a segment whose newest event is NEWER than  now - retention  is selected, the coded horizon keeps it *)
+Theorem C14_calendar_horizon_refuted_spring_forward :
+  exists z now hours org s,
+    0 <= now /\ Z.of_N hours * 3600000 <= now /\
+    s_org s = org /\ now < Z.of_N (latest_ms s) + Z.of_N hours * 3600000 /\
+    expired (horizon_of_calendar hours (mktime now z)) org s = true /\
+    expired (horizon_of hours (mktime now z)) org s = false /\
+    retention_time_ms_calendar (Z.of_N hours) (mktime now z) = retention_time_ms (Z.of_N hours) (mktime now z) + 3600000.
+Proof. exact calendar_spring_forward_refuted. Qed.
+Print Assumptions C14_calendar_horizon_refuted_spring_forward.
+
+(* change back inside the window (pass on 2024-11-10 12:00 UTC, 15 days): horizon one hour too early; a segment whose
+   newest event is OLDER than  now - retention  is kept *)
+Theorem C14_calendar_horizon_refuted_fall_back :
+  exists z now hours org s,
+    0 <= now /\ Z.of_N hours * 3600000 <= now /\
+    s_org s = org /\ Z.of_N (latest_ms s) + Z.of_N hours * 3600000 < now /\
+    expired (horizon_of_calendar hours (mktime now z)) org s = false /\
+    expired (horizon_of hours (mktime now z)) org s = true /\
+    retention_time_ms_calendar (Z.of_N hours) (mktime now z) = retention_time_ms (Z.of_N hours) (mktime now z) - 3600000.
+Proof. exact calendar_fall_back_refuted. Qed.
+Print Assumptions C14_calendar_horizon_refuted_fall_back.
+
+(* a retention below one day does not help: in the repeated hour after the change back AddDate(0, 0, 0) is not the
+   identity (the wall-clock reading is ambiguous and resolves to its first occurrence) *)
+Theorem C14_calendar_horizon_refuted_repeated_hour :
+  exists z now hours, 0 <= hours < 24 /\
+    t_inst (t_adddate_days (mktime now z) 0) = now - 3600000 /\
+    retention_time_ms_calendar hours (mktime now z) = retention_time_ms hours (mktime now z) - 3600000.
+Proof. exact calendar_repeated_hour_refuted. Qed.
+Print Assumptions C14_calendar_horizon_refuted_repeated_hour.
